@@ -629,6 +629,19 @@ func (p *c07) Run(c *verifsim.Chooser, st *Stats, render bool) *Outcome {
 		} else if F.e.VerifScopes() > 0 {
 			lastFault, lastWhere = "early-return", "scoped"
 		}
+		// a history whose variables grow without bound (a script that doubles
+		// a string it keeps) ends here: the next runs would only measure the
+		// host's memory
+		grown := false
+		for _, v := range fv {
+			if len(v) > 1<<16 {
+				grown = true
+			}
+		}
+		if grown {
+			st.probe("history-ended:variable-larger-than-64KB")
+			break
+		}
 	}
 	if nfaults >= 3 {
 		st.probe("history-with>=3-faults")
